@@ -6,6 +6,7 @@ import (
 	"fmt"
 	"io/fs"
 	"strings"
+	"time"
 
 	"github.com/bufbuild/buf/private/bufpkg/bufmodule"
 	"github.com/bufbuild/buf/private/bufpkg/bufparse"
@@ -63,6 +64,55 @@ type c08Provider struct {
 	backend c08Backend
 	// served content per module name (possibly tampered); pinned: the digest the key carries
 	served map[string]*c08RemoteMod
+	// depsB4: the dependency keys carry legacy (b4) digests, the way a v1 buf.lock pins them; the b5 digests
+	// then come from the commit provider
+	depsB4 bool
+}
+
+// c08Commits plays the commit service: it knows the b5 module key of every pinned dependency commit.
+type c08Commits struct {
+	byCommit map[uuid.UUID]c08PinnedDep
+	asked    int
+}
+
+func (cp *c08Commits) commit(id uuid.UUID) (bufmodule.Commit, error) {
+	d, ok := cp.byCommit[id]
+	if !ok {
+		return nil, &fs.PathError{Op: "read", Path: id.String(), Err: fs.ErrNotExist}
+	}
+	mk, err := c08Key(d.name, d.commit, d.digest)
+	if err != nil {
+		return nil, err
+	}
+	cp.asked++
+	return bufmodule.NewCommit(mk, func() (time.Time, error) { return time.Unix(1700000000, 0), nil }), nil
+}
+
+func (cp *c08Commits) GetCommitsForModuleKeys(ctx context.Context, keys []bufmodule.ModuleKey) ([]bufmodule.Commit, error) {
+	var out []bufmodule.Commit
+	for _, k := range keys {
+		cm, err := cp.commit(k.CommitID())
+		if err != nil {
+			return nil, err
+		}
+		out = append(out, cm)
+	}
+	return out, nil
+}
+
+func (cp *c08Commits) GetCommitsForCommitKeys(ctx context.Context, keys []bufmodule.CommitKey) ([]bufmodule.Commit, error) {
+	var out []bufmodule.Commit
+	for _, k := range keys {
+		if k.DigestType() != bufmodule.DigestTypeB5 {
+			return nil, fmt.Errorf("commit service asked for digest type %v, b5 is the only type that may enter a b5 digest", k.DigestType())
+		}
+		cm, err := cp.commit(k.CommitID())
+		if err != nil {
+			return nil, err
+		}
+		out = append(out, cm)
+	}
+	return out, nil
 }
 
 func (p *c08Provider) GetModuleDatasForModuleKeys(ctx context.Context, keys []bufmodule.ModuleKey) ([]bufmodule.ModuleData, error) {
@@ -80,7 +130,11 @@ func (p *c08Provider) GetModuleDatasForModuleKeys(ctx context.Context, keys []bu
 			func() ([]bufmodule.ModuleKey, error) {
 				var dk []bufmodule.ModuleKey
 				for _, d := range rm.deps {
-					k, err := c08Key(d.name, d.commit, d.digest)
+					digest := d.digest
+					if p.depsB4 {
+						digest = model.B4(map[string][]byte{"x.proto": []byte(d.name + d.commit.String())}, nil, nil)
+					}
+					k, err := c08Key(d.name, d.commit, digest)
 					if err != nil {
 						return nil, err
 					}
@@ -359,6 +413,36 @@ func c08Remote(e *c08Env) {
 		}
 		c.Count("remote_pinned_digests", 1)
 		c.Distinct("remote_dep_count", fmt.Sprint(len(r.deps)))
+		if len(r.deps) > 0 {
+			// the same commit with its dependencies pinned the legacy way (b4 digests, as in a v1 buf.lock): the b5
+			// digests come from the commit service, and the module's b5 digest is the same value
+			commits := &c08Commits{byCommit: map[uuid.UUID]c08PinnedDep{}}
+			for _, d := range r.deps {
+				commits.byCommit[d.commit] = d
+			}
+			prov := &c08Provider{e: e, backend: b, served: map[string]*c08RemoteMod{r.name: r}, depsB4: true}
+			// such a commit is itself pinned by its b4 digest (which covers its own files only)
+			key, kerr := c08Key(r.name, r.commit, model.B4(r.files, nil, nil))
+			var l5 string
+			var lerr error
+			if kerr == nil {
+				var ms bufmodule.ModuleSet
+				ms, lerr = bufmodule.NewModuleSetBuilder(e.ctx, slogext.NopLogger, prov, commits).AddRemoteModule(key, true).Build()
+				if lerr == nil {
+					fn, _ := bufparse.ParseFullName(r.name)
+					l5, _, lerr = c08ReadDigests(ms.GetModuleForFullName(fn))
+				}
+			}
+			c.Eval(1)
+			switch {
+			case kerr != nil || lerr != nil:
+				c.Violation("digest-error", "remote-pinned-by-b4-dependency-keys backend="+b.name, fmt.Sprintf("remote module whose dependencies are pinned with b4 digests failed: %v %v; %s", kerr, lerr, desc(r)), nil)
+			case l5 != want:
+				c.Violation("b5-differs-from-construction", "remote-pinned-by-b4-dependency-keys backend="+b.name, fmt.Sprintf("Digest(b5)=%s with b4-pinned dependencies, %s with b5-pinned ones; %s", l5, want, desc(r)), nil)
+			default:
+				c.Count("remote_b4_pinned_dependencies", 1)
+			}
+		}
 		// tampering
 		order := c.Rand.Perm(len(c08Tampers))
 		budget := c.Pick(5, 9)
